@@ -34,6 +34,22 @@ static void second_link_job(void *a) {
     if (rc1 < 0 || rc2 != 1 || k2.got != pl) c.fail("intruder.roundtrip", "a frame of %zu octets encoded and decoded by a second link (%s) while another link's sink call was pending came back wrong (encode %d, decode %d, %zu octets)", pl.size(), sof ? "start-of-frame" : "classic", rc1, rc2, k2.got.size());
 }
 
+// Another link lived in this process before the scenario (plan field "prelude"): its decoder met a broken escape or a line that ended inside a
+// frame, its encoder a sink that failed inside an escape pair. Nothing of that may be felt by the scenario's contexts.
+static void earlier_link(Ctx &c, int64_t arg) {
+    const bool sof = (arg & 1) != 0;
+    SimSource s; SimSink k; s.c = &c; k.c = &c; s.octet_kind = (arg & 2) != 0; k.octet_kind = (arg & 4) != 0;
+    Source so; Sink si; s.bind(&so); k.bind(&si);
+    RFC1055Context x; init_context(&x, sof);
+    switch ((arg >> 3) % 4) {
+    case 0: s.data = {END, 0x11, ESC, 0x00, 0x22}; (void)rfc1055_decode(&x, &so, &si); (void)rfc1055_decode(&x, &so, &si); break;   // ESC followed by no escape code, no END behind it
+    case 1: s.data = {END, 0x11, 0x22, ESC}; (void)rfc1055_decode(&x, &so, &si); break;                                             // the line ends inside an escape pair
+    case 2: s.data = {0x33, 0x44}; (void)rfc1055_decode(&x, &so, &si); (void)rfc1055_decode(&x, &so, &si); break;                   // (start-of-frame mode: octets before any delimiter)
+    default: s.data = {0x01, END, ESC, 0x02}; k.err_pos = 2 + (int64_t)((arg >> 5) & 3); k.err_code = EIO; (void)rfc1055_encode(&x, &so, &si); break;   // the sink fails around an escape pair
+    }
+    COUNT("probe.earlier_link_failed_before_the_scenario");
+}
+
 static const Json *g_enc_intrude = nullptr;   // the plan's "intrude" pair while a plan runs: encoders' sinks are interrupted as well as decoders'
 
 struct SlipHarness : Harness {
@@ -42,7 +58,7 @@ struct SlipHarness : Harness {
     std::vector<std::string> probes(const std::string &) const override {
         return {"garbage_ends_in_esc", "garbage_without_delimiter", "garbage_esc_followed_by_end", "sof_first_frame_lost", "empty_frame_sof", "empty_frame_classic",
                 "sink_error_on_escaped_octet", "encoder_source_error", "encoder_sink_error", "decoder_source_error", "decoder_sink_error", "illegal_sequence_reported",
-                "resynchronised_after_garbage", "concatenated_frames", "worst_case_length_reached", "source_error_between_frames_then_retry", "encode_while_decoder_is_inside_a_frame", "context_from_static_initialiser", "second_link_worked_during_a_sink_call", "second_link_worked_during_a_source_call", "sink_answered_not_now_during_encode"};
+                "resynchronised_after_garbage", "concatenated_frames", "worst_case_length_reached", "source_error_between_frames_then_retry", "encode_while_decoder_is_inside_a_frame", "context_from_static_initialiser", "second_link_worked_during_a_sink_call", "earlier_link_failed_before_the_scenario", "second_link_worked_during_a_source_call", "sink_answered_not_now_during_encode"};
     }
     uint64_t runs(const std::string &, const Tier &t) const override { return t.thorough() ? 30000000 : 2500000; }
 
@@ -88,6 +104,7 @@ struct SlipHarness : Harness {
         bool sof = r.chance(1, 2);
         p["sof"] = sof; if (r.chance(1, 3)) p["static_init"] = 1;
         if (r.chance(1, 5)) { Json ij = Json::arr(); ij.push((long long)r.below(12)); ij.push((long long)r.below(1 << 24)); p["intrude"] = ij; }
+        if (r.chance(1, 6)) p["prelude"] = (long long)r.below(256);   // an earlier link failed before the scenario
         if (r.chance(1, 4)) { Json tj = Json::arr(); tj.push((long long)r.below(14)); tj.push((long long)r.below(2)); p["snk_transient"] = tj; }
         p["src_octet"] = r.chance(1, 2); p["snk_octet"] = r.chance(1, 2);
         int maxlen = t.thorough() ? (r.chance(1, 10) ? 1024 : (r.chance(1, 3) ? 64 : 9)) : 9;
@@ -216,6 +233,7 @@ struct SlipHarness : Harness {
         g_have_ctx = false; last_F.clear(); last_encs.clear();
         g_bind_with_macros = plan.geti("static_init") != 0;
         g_static_init = plan.geti("static_init") != 0; if (g_static_init) COUNT("probe.context_from_static_initialiser");
+        if (plan.has("prelude")) earlier_link(c, plan.geti("prelude"));
         g_enc_intrude = plan.has("intrude") ? &plan.get("intrude") : nullptr;
         exec_inner(plan, c);
         g_enc_intrude = nullptr;
